@@ -295,6 +295,11 @@ func (r *receiver) run(ctx context.Context) error {
 							}
 						}
 						metadataParents.clear()
+						if isDir {
+							// a selected directory was on top of the stack and has
+							// just been forwarded with its parents
+							continue
+						}
 					}
 				}
 
